@@ -70,6 +70,16 @@ let handle_got cmd args got : string option =
     let (v, rest) = no_sign_atoi s in
     (* strtol reads a sign that no_sign_atoi does not: libc part predicted, gemmi part as modelled *)
     Some (Printf.sprintf "g=%s,%d c=%s" (dec_of_z v) (len s - len rest) (strtol_s (cut_nul s)))
+  (* the repaired (unsigned-accumulating) readers on numbers of any size: gemmi's part only *)
+  | "wsti", [h; chk; l] ->
+    (match string_to_int_u (str_of_hex h) (chk = "1") (nat_of_int (int_of_string l)) with
+     | Some v -> Some (dec_of_z v) | None -> Some "EXC")
+  | "wsatoi", [h] ->
+    let s = str_of_hex h in
+    let (v, rest) = simple_atoi_u s in Some (Printf.sprintf "%s,%d" (dec_of_z v) (len s - len rest))
+  | "wnsatoi", [h] ->
+    let s = str_of_hex h in
+    let (v, rest) = no_sign_atoi_u s in Some (Printf.sprintf "%s,%d" (dec_of_z v) (len s - len rest))
   | "asint", [h] ->
     (match string_to_int (str_of_hex h) true O with Some v -> Some (dec_of_z v) | None -> Some "EXC")
   | "num", [h] ->
